@@ -4,6 +4,6 @@ cd /verif
 while [ $# -ge 2 ]; do
   id=$1; name=$2; shift 2
   echo "=== $id-$name $(date +%H:%M)" >> /tmp/seedq.log
-  python3 tools/validate_seed.py /tmp/seed-$id-$name $id $name >> /tmp/seedq.log 2>&1
+  python3 tools/validate_seed.py /tmp/seed-$id-$name $id $name $SEEDQ_OPTS >> /tmp/seedq.log 2>&1
   git -C /repo worktree remove --force /tmp/seed-$id-$name >> /tmp/seedq.log 2>&1
 done
